@@ -355,7 +355,7 @@ def r156(ctx, rep):
                  any(isinstance(x, ast.Yield) for b in l.body for x in ast.walk(b))]
         inner = [l for l in loops if not any((m is not l) and any(x is m for x in ast.walk(l)) for m in loops)]
         if not inner:
-            raise AnalysisError('anchor vanished: record loop of %s' % fq)
+            rep.undecided('R15.6', fn, 'record loop of ' + fn.name, 'no yielding record loop was recognised', fn.node)
         for lp in inner:
             n += 1
             cont, term = _count_paths(lp.body, lambda x: isinstance(x, (ast.Yield, ast.YieldFrom)))
@@ -375,11 +375,12 @@ def r156(ctx, rep):
         fn = ctx.project.need_fn(fq)
 
         def is_write(x, meths=meths):
-            return isinstance(x, ast.Call) and isinstance(x.func, ast.Attribute) and x.func.attr in meths
+            return isinstance(x, ast.Call) and ((isinstance(x.func, ast.Attribute) and x.func.attr in meths) or
+                                                (isinstance(x.func, ast.Name) and x.func.id in meths))
         loops = [l for l in own_nodes(fn.node) if isinstance(l, ast.For) and
                  any(is_write(x) for b in l.body for x in ast.walk(b))]
         if not loops:
-            raise AnalysisError('anchor vanished: row loop of %s' % fq)
+            rep.undecided('R15.6', fn, 'row loop of ' + fn.name, 'no loop that writes one record per row was recognised', fn.node)
         for lp in loops:
             n += 1
             cont, term = _count_paths(lp.body, is_write)
@@ -390,7 +391,7 @@ def r156(ctx, rep):
             else:
                 rep.violated('R15.6', fn, c, 'a pass through the row loop writes %s record(s) depending on the path: rows '
                              'are dropped or duplicated on the way out' % sorted(counts, key=lambda x: (x is None, x)), lp)
-    ctx.floor('record_loops', n, 6)
+    ctx.floor('record_loops', n, 3)
 
 
 # ------------------------------------------------------------------------ R15.7
